@@ -335,7 +335,31 @@ func cmdCheck(args []string) int {
 			wg.Wait()
 			fmt.Printf("vacuity sweep %s: %d groups checked, %d vacuous\n", prop, len(qs), vac)
 		}
-		return writeLock(filepath.Join(*verif, "obligations.lock"), prop, order, func(b string) bool { return len(groups[b].fails) == 0 }, lock)
+		// functions all of whose safety obligations (for this property) are discharged: the
+		// function as a whole is claimed panic-free, so a safety obligation that appears later
+		// in it and fails is a violation although it cannot be in the lock
+		safetyAll := map[string]bool{}
+		safetyBad := map[string]bool{}
+		for _, b := range order {
+			g := groups[b]
+			if len(g.insts) == 0 || g.insts[0].Kind != "safety" {
+				continue
+			}
+			fn := g.insts[0].Func
+			safetyAll[fn] = true
+			if len(g.fails) > 0 {
+				safetyBad[fn] = true
+			}
+		}
+		order2 := append([]string{}, order...)
+		for fn := range safetyAll {
+			if !safetyBad[fn] {
+				m := fn + ".safety.complete"
+				groups[m] = &group{}
+				order2 = append(order2, m)
+			}
+		}
+		return writeLock(filepath.Join(*verif, "obligations.lock"), prop, order2, func(b string) bool { return len(groups[b].fails) == 0 }, lock)
 	}
 
 	backend := map[string]int{}
@@ -439,6 +463,40 @@ func cmdCheck(args []string) int {
 		if len(bad) > 1 {
 			suffix = fmt.Sprintf(" (+%d more failing cases of this obligation)", len(bad)-1)
 		}
+		if !isLocked && shown.Kind == "safety" && locked[shown.Func+".safety.complete"] {
+			// every safety obligation of this function was discharged on the baseline: a new one
+			// that fails means the changed body can now panic where it could not before
+			sat := false
+			for _, o := range bad {
+				if o.Status == "sat" {
+					sat = true
+				}
+			}
+			if sat {
+				if rp == nil {
+					for k, o := range bad {
+						if k >= 3 {
+							break
+						}
+						r := tryReplay(eng, o, replayDir, prop, *repo)
+						if rp == nil || (r != nil && r.Confirmed) {
+							rp, shown = r, o
+						}
+						if r != nil && r.Confirmed {
+							break
+						}
+					}
+				}
+				violations++
+				if rp != nil && rp.Confirmed {
+					violLines = append(violLines, fmt.Sprintf("VIOLATION property=%s replay=%s obligation=%s (new in a function whose safety obligations were all discharged on the baseline) counterexample confirmed on the real code%s", prop, rp.Path, shown.Name, suffix))
+				} else {
+					path := writeNoInputReplay(replayDir, prop, shown, rp)
+					violLines = append(violLines, fmt.Sprintf("VIOLATION property=%s replay=%s obligation=%s (new in a function whose safety obligations were all discharged on the baseline) solver=%s%s no-failing-input-found", prop, path, shown.Name, shown.Status, suffix))
+				}
+				continue
+			}
+		}
 		if !isLocked && strings.HasSuffix(shown.Clause, ".callers") && shown.Status == "sat" {
 			// a caller whitelist is a closed list in the contract (decided syntactically, no solver
 			// involved): a call from a function that is not on it is new by nature, so it cannot
@@ -470,7 +528,7 @@ func cmdCheck(args []string) int {
 	// locked obligations that were not generated at all
 	var missing []string
 	for b := range locked {
-		if groups[b] == nil {
+		if groups[b] == nil && !strings.HasSuffix(b, ".safety.complete") {
 			missing = append(missing, b)
 		}
 	}
